@@ -873,9 +873,15 @@ class Runner {
       }
     }
     account_shared_strings(t.doc);
+    bool via_variant = !cstr_key && key.find('\0') == std::string::npos && (index + key.size()) % 5 == 0;
     for (auto& w : worlds) {
       auto doit = [&](auto&& x) {
-        if (by_index) x.remove(index);
+        if (via_variant) {  // remove(variant): an index or a key held by another document
+          JsonDocument keydoc;
+          if (by_index) keydoc.set(index);
+          else keydoc.set(key);
+          x.remove(keydoc.as<JsonVariantConst>());
+        } else if (by_index) x.remove(index);
         else {
           std::string tmp = key;
           if (key.find('\0') == std::string::npos && cstr_key) x.remove(tmp.c_str());
